@@ -42,6 +42,7 @@ struct Interval { int type; long fsupc; long krep; }; // type 0 = UPD (values+fi
 struct TaskShadow { long panel = -1, w = 0, bcol = -1; const int_t *lbusy = nullptr; std::vector<Interval> iv; bool in_prune = false; long prune_fsupc = -1; };
 std::vector<TaskShadow> ts;
 std::vector<long> stack_marks;
+long elt_size = 8;
 long init_events = 0;
 
 std::string fmt(const char *f, ...) __attribute__((format(printf, 1, 2)));
@@ -65,6 +66,7 @@ inline bool in_subtree(long node, long root) { return node <= root && node > roo
 
 uint64_t sched_state_hash();
 extern uint64_t sched_hash_last;
+extern long bump_next[3];
 
 // identity of the five factorization locks: entries of lu_locks[] in the pthread build, the name objects of the
 // `#pragma omp critical (NAME)` sections in the OpenMP build
@@ -99,7 +101,7 @@ void on_init(long n, const void *ptr, long c) {
     handed.assign(n + 1, 0); upd_ranges.assign(n, {}); upd_log.clear(); released_total = 0; extents_checked = false;
     ts.clear();
     panels_total = shared->tasks_remain; handed_total = 0; max_open_nsuper = -1; thread_exits = 0; mem_error_seen = false;
-    first_zero_col = -1;
+    first_zero_col = -1; bump_next[0] = bump_next[1] = bump_next[2] = -1;
     // subtree sizes (etree is postordered: children before parents)
     subtree.assign(n + 1, 1);
     const int_t *et = options->etree;
@@ -169,6 +171,16 @@ uint64_t sched_state_hash() {
 }
 uint64_t sched_hash_last = 0;
 
+// a bump pointer hands out consecutive ranges: every request starts where the previous one ended.  A start value that was read
+// outside the critical section (stale) shows as a gap or an overlap even when the update itself is inside the lock.
+long bump_next[3] = {-1, -1, -1};
+void bump_check(int which, const char *what, long prev, long num) {
+    if (bump_next[which] >= 0 && prev != bump_next[which])
+        viol("C05", "bump_pointer_not_continuous", fmt("%s storage: request starts at %ld, the previous request ended at %ld (%s)", what, prev, bump_next[which], prev < bump_next[which] ? "ranges overlap" : "gap"));
+    bump_next[which] = prev + num;
+    probes["bump_pointer_requests_checked"]++;
+}
+
 void check_lock(int task, int which, const char *what) {
     if (!shared) return;
     if (sim::mutex_owner(lock_addr(which)) != task) viol("C03", "lock_discipline", fmt("%s outside its critical section", what));
@@ -236,6 +248,26 @@ void on_event(int task, int kind, long pnum, long a, long b, long c, const void 
         if (!(0 <= top1 && top1 <= top2 && top2 <= size)) viol("C14", "workspace_stack_pointers", fmt("after op %ld: top1=%ld top2=%ld size=%ld", a, top1, top2, size));
         if (used < 0 || used > size) viol("C14", "workspace_stack_used", fmt("after op %ld: used=%ld size=%ld", a, used, size));
         probes["stack_events"]++;
+        if (inited && Glu && a == 1) {
+            // a block granted from the caller workspace while a factorization is under way must not overlap the storage of the factors
+            // (the arrays Glu points to).  [lo, hi) relative to the workspace: HEAD blocks end at top1, TAIL blocks start at top2.
+            const char *base = *(const char *const *)((const char *)ptr + 4 * sizeof(int_t));
+            long bytes = b, lo = c == 0 ? top1 - bytes : top2, hi = lo + bytes;
+            struct { const char *nm; const void *p; long len; } arr[] = {
+                {"lusup", Glu->lusup, (long)Glu->nzlumax * elt_size}, {"ucol", Glu->ucol, (long)Glu->nzumax * elt_size},
+                {"lsub", Glu->lsub, (long)Glu->nzlmax * (long)sizeof(int_t)}, {"usub", Glu->usub, (long)Glu->nzumax * (long)sizeof(int_t)},
+                {"xsup", Glu->xsup, (N + 1) * (long)sizeof(int_t)}, {"xsup_end", Glu->xsup_end, N * (long)sizeof(int_t)}, {"supno", Glu->supno, (N + 1) * (long)sizeof(int_t)},
+                {"xlsub", Glu->xlsub, (N + 1) * (long)sizeof(int_t)}, {"xlsub_end", Glu->xlsub_end, N * (long)sizeof(int_t)},
+                {"xlusup", Glu->xlusup, (N + 1) * (long)sizeof(int_t)}, {"xlusup_end", Glu->xlusup_end, N * (long)sizeof(int_t)},
+                {"xusub", Glu->xusub, (N + 1) * (long)sizeof(int_t)}, {"xusub_end", Glu->xusub_end, N * (long)sizeof(int_t)}};
+            for (auto &e : arr) {
+                if (!e.p || !base) continue;
+                long off = (long)((const char *)e.p - base);
+                if (off < 0 || off >= size) continue;            // not in the caller workspace
+                if (off < hi && lo < off + e.len) { viol("C14", "workspace_block_overlaps_factor_storage", fmt("%s block [%ld..%ld) of the caller workspace overlaps %s at [%ld..%ld) (used=%ld top1=%ld top2=%ld size=%ld)", c == 0 ? "HEAD" : "TAIL", lo, hi, e.nm, off, off + e.len, used, top1, top2, size)); break; }
+            }
+            probes["workspace_blocks_checked_against_factors"]++;
+        }
         return;
     }
     if (kind == SLU_EV_SPIN) return;
@@ -325,9 +357,11 @@ void on_event(int task, int kind, long pnum, long a, long b, long c, const void 
             probes["lusup_allocs_checked"]++;
         } else if (mt == LSUB) {
             check_lock(task, LLOCK, "L-subscript bump pointer");
+            bump_check(0, "L-subscript", prev, num);
             if (prev + num > Glu->nzlmax) viol("C05", "lsub_overrun", fmt("lsub needs %ld, holds %ld", prev + num, (long)Glu->nzlmax));
         } else {
             check_lock(task, ULOCK, "U bump pointer");
+            bump_check(1, "U", prev, num);
             if (prev + num > Glu->nzumax) viol("C05", "ucol_overrun", fmt("ucol needs %ld, holds %ld", prev + num, (long)Glu->nzumax));
         }
         break;
@@ -335,6 +369,7 @@ void on_event(int task, int kind, long pnum, long a, long b, long c, const void 
     case SLU_EV_ALLOC_DYN: {
         check_lock(task, LULOCK, "dynamic L-supernode bump pointer");
         long jcol = a, prev = b, num = c;
+        bump_check(2, "dynamic L-supernode", prev, num);
         slot_start[jcol] = prev; slot_end[jcol] = prev + num;
         if (prev + num > Glu->nzlumax) viol("C05", "dyn_estimate_exceeds_array", fmt("H-supernode %ld: slot [%ld..%ld) beyond nzlumax %ld", jcol, prev, prev + num, (long)Glu->nzlumax));
         probes["dyn_slots"]++;
@@ -431,7 +466,7 @@ const std::vector<long> &monitor_stack_marks() { return stack_marks; }
 long monitor_init_events() { return init_events; }
 
 void monitor_install() { sim::event_cb = on_event; }
-void monitor_begin_op(const Case &, const OpSpec &, int opi) { stack_marks.clear(); init_events = 0; cur_op = opi; shared = nullptr; options = nullptr; Glu = nullptr; inited = false; first_zero_col = -1; }
+void monitor_begin_op(const Case &c, const OpSpec &, int opi) { elt_size = (c.prec == PREC_S) ? 4 : (c.prec == PREC_D || c.prec == PREC_C) ? 8 : 16; stack_marks.clear(); init_events = 0; cur_op = opi; shared = nullptr; options = nullptr; Glu = nullptr; inited = false; first_zero_col = -1; }
 
 void monitor_end_op(Outcome &out, int opi, long info) {
     (void)out; (void)opi;
